@@ -132,7 +132,7 @@ func builderEffect(r *Repo, method string, nargs int) bEffect {
 }
 
 func checkC10(c *Check) {
-	c.Explain = "Decides structural conditions on the self-hosted grammar peg.peg (read by an independent .peg reader) and on the builder it drives. R-stack-effect: each Tree.Add* method gets a summary (nodes popped from / pushed to the stack side, pushed to the queue side) by evaluating its source on a marked tree; the grammar is then typed: every alternative of a choice and every optional part has the same net effect, repetition bodies are neutral, lookaheads contribute nothing, recursion is solved as a fixpoint; obligations: every rule has one net effect and never pops below its entry depth, the start rule is neutral — because actions replay in derivation order (C04) this is a statement about every parse of every grammar text, and it is what makes 'every primary pushes exactly one node' true. R-escape-table: each letter escape's action argument decodes to the code point the convention assigns; R-escape-capture: the hex alternative captures the longest run of hex digits in either case and the octal alternatives up to three octal digits ≤ 0377 (the capture patterns are matched against all short digit strings); R-escape-range: evaluating AddOctalCharacter/AddHexaCharacter on every string of the octal capture patterns and on boundary hex strings yields the denoted code point. R-quote-routing: single-quoted literals and [..] classes cannot reach the case-folding builders, double-quoted and [[..]] reach letters only through them, both ^ forms are followed by PeekNot;Dot;Sequence, and the case-folding builders produce the lower/upper alternation. R-precedence: operand rules of a level-ℓ operator action cannot reach a lower-level operator action except through parentheses or <>. R-spellings: # and // comments, <- and ←. R-import-alias: the repository's formatImport literal and Compile's first pass are evaluated on import lists the builder produces: each user import is printed once with exactly its alias and path; R-import-routing: the grammar passes alias then the quoted path; R-action-braces: the action rule is '{' <B*> '}' with B → non-brace | '{' B* '}'. R-reject: the start rule ends in end-of-file and Execute/Compile are reached only when Parse returned nil. NOT decided: that each construct behaves as documented once built (C01 on the built tree); every spelling variant of whitespace."
+	c.Explain = "peg.peg is read by an independent reader written from the documentation (pegreader.go). (1) R-syntax-differential and R-grammar-differential: peg.peg is evaluated as data with PEG semantics (ordered choice, greedy repetition, lookahead, actions recorded on the successful derivation only) on expression texts and on whole grammar files; the builder calls it records are executed on the builder's source by the E1 interpreter; the resulting tree is compared, in a normal form that ignores only the nesting of sequences and choices, with the tree the independent reader builds; texts the reader rejects must be rejected. Expression texts: a corpus of every documented construct, escape (letters, quotes, brackets, dash, backslash, octal, \\0x hex in both cases), quoting style, class form (ranges, ^, [[..]]), operator, precedence combination and spacing/comment spelling, well-formed and malformed, plus EVERY string of at most 3 (thorough 4) characters over 24 token characters. Grammar files: 19 well-formed (both arrows, both comment styles in every position incl. the last line without newline, CRLF, single/grouped/aliased imports, nested braces) and 20 malformed texts. (2) Lexical rules compared string by string over small alphabets with the documented definition: R-action-braces (every string ≤7 over {, }, other, space), R-import-routing (every string ≤6 over letters, _, digit, quote, / . -, space), R-escape-capture (numeric escape capture patterns on all short digit strings). (3) Builder: R-stack-effect (each Tree.Add* summarised by evaluating its source on a marked tree, the grammar typed with a least fixpoint: every rule has one net effect, never pops below its entry depth, the start rule is neutral — a statement about every parse of every grammar text), R-builder-shape, R-escape-range (decoders on every octal string and boundary hex strings), R-quote-routing (case-folding builders), R-import-alias (first pass + the template's formatImport literal evaluated on import lists). The first version's shape rules on the spelling of peg.peg (escape table, quote routing, precedence strata, spellings, operator routing, start rule ends in !.) raised alarms on behaviour-preserving rewrites of the grammar and were retired in favour of (1). NOT decided: texts beyond the corpus and the enumerated lengths; that each construct behaves as documented once built (C01 on the built tree); that peg.peg.go is the output for peg.peg (TestSame)."
 	c.Assume = []string{"actions run once each in derivation order (C04)", "the .peg reader in pegreader.go reads peg.peg as documented"}
 	c.Trusted = []string{"pegreader.go", "interp.go for the builder summaries", "strconv"}
 	r := mustRepo(c)
@@ -155,17 +155,25 @@ func checkC10(c *Check) {
 		c.Note("grammar rules", rl.Name)
 	}
 	stackEffects(c, r, g)
-	escapeTable(c, r, g)
+	escapeDecoders(c, r)
 	escapeCaptures(c, g)
-	quoteRouting(c, r, g)
-	precedence(c, g)
-	spellings(c, g)
-	operatorRouting(c, g)
+	caseFoldBuilders(c, r)
 	builderShapes(c, r)
-	reject(c, r, g)
+	// The shape rules of the first version (escape table, quote routing,
+	// precedence strata, spellings, operator routing, start rule ends in !.)
+	// matched the spelling of peg.peg and raised alarms on behaviour-preserving
+	// rewrites of the grammar (self-test [equivalent] variants); what they stood
+	// for is decided by R-syntax-differential and R-grammar-differential below.
+	_ = escapeTableShape
+	_ = quoteRoutingShape
+	_ = precedence
+	_ = spellings
+	_ = operatorRouting
+	_ = reject
 	importAlias(c, r)
-	importRouting(c, g)
-	actionBraces(c, g)
+	lexicalDifferential(c, g)
+	syntaxDifferential(c, r, g)
+	grammarDifferential(c, r, g)
 }
 
 // builderShapes: each builder produces the node its name says, with operands in source order.
@@ -554,7 +562,7 @@ func hasCall(e *pexpr, method string) bool {
 	return false
 }
 
-func escapeTable(c *Check, r *Repo, g *pgrammar) {
+func escapeTableShape(c *Check, r *Repo, g *pgrammar) {
 	esc := findRule(g, func(rl *prule) bool { return hasCall(rl.Expr, "AddHexaCharacter") })
 	if esc == nil || esc.Expr.Op != "alt" {
 		c.Und("R-escape-table", "peg.peg/escape rule", "", "the rule with the numeric escape actions was not found or is not a choice")
@@ -600,6 +608,10 @@ func escapeTable(c *Check, r *Repo, g *pgrammar) {
 	sort.Strings(bad)
 	c.Decide(len(bad) == 0, "R-escape-table", "peg.peg/"+esc.Name+" letter escapes", fmt.Sprintf("peg.peg:%d", esc.Line), fmt.Sprintf("%d letter escapes, each action argument decodes to the conventional code point", len(seen)), strings.Join(bad, "; "))
 
+}
+
+// escapeDecoders: R-escape-range — the builder's numeric decoders.
+func escapeDecoders(c *Check, r *Repo) {
 	// numeric escapes: evaluate the decoders
 	type probe struct{ method, text string; want rune }
 	var probes []probe
@@ -706,7 +718,7 @@ func callsReachable(g *pgrammar, e *pexpr, cut func(parent, ref *pexpr) bool) ma
 	return out
 }
 
-func quoteRouting(c *Check, r *Repo, g *pgrammar) {
+func quoteRoutingShape(c *Check, r *Repo, g *pgrammar) {
 	// literal rule: a choice whose alternatives start with a quote class
 	var bad []string
 	n := 0
@@ -845,6 +857,10 @@ func quoteRouting(c *Check, r *Repo, g *pgrammar) {
 	}
 	c.Decide(len(bad) == 0 && n >= 4, "R-quote-routing", "peg.peg/quoting and class forms reach the right builders", "", fmt.Sprintf("%d quoting/class forms: '…' and […] never reach the case-folding builders, \"…\" and [[…]] do, negated classes are !(members) '.'", n), strings.Join(bad, "; "))
 	// the case-folding builders themselves
+}
+
+// caseFoldBuilders: R-quote-routing (builder half).
+func caseFoldBuilders(c *Check, r *Repo) {
 	var bad2 []string
 	func() {
 		defer func() {
